@@ -24,6 +24,7 @@ def build(r, name, n_enabled, mask):
         v.attr_order_seed = r.randint(0, 7)
     spec = EnumSpec(name=name, variants=vs, derives=["EnumTable"], std_derives=["Debug", "PartialEq", "Clone", "Copy"])
     gen.add_noise(r, spec, skip=("message",))
+    gen.maybe_macro_wrap(r, spec)
     if not any(model.snakify(v.ident).startswith("r_") for v in spec.variants):
         gen.rawify(r, spec, explicit_names=False)
     if r.random() < 0.5:
